@@ -213,3 +213,58 @@ def body_alias(sel: int) -> bool:
                             [(d["bf"], d["model"], d["model_params"], len(d["fs"])) for d in dn]:
                         return fail(f"CDecay {x} from copied table {new}: lines differ")
     return True
+
+
+# ---- in-place modification with a symbolic value: whatever is written into a returned structure never reaches the parser --------------
+N_PURE = len(TEXTS) * N_OPS
+
+
+def _write(r, v):
+    if isinstance(r, dict):
+        for k in list(r):
+            if isinstance(r[k], (dict, list)):
+                _write(r[k], v)
+            else:
+                r[k] = v
+        r["new"] = v
+    elif isinstance(r, list):
+        for i in range(len(r)):
+            if isinstance(r[i], (dict, list)):
+                _write(r[i], v)
+            else:
+                r[i] = v
+        r.append(v)
+
+
+def _holds(x, v):
+    if x is v:
+        return True
+    if isinstance(x, dict):
+        return any(_holds(k, v) or _holds(y, v) for k, y in x.items())
+    if isinstance(x, (list, tuple, set)):
+        return any(_holds(y, v) for y in x)
+    return False
+
+
+def body_pure(sel: int, v: int) -> bool:
+    from crosshair import NoTracing
+    b, i = sel % len(TEXTS), sel // len(TEXTS)
+    text = TEXTS[b]
+    with NoTracing():
+        fresh = snapshot(parse(text))
+    p = parse(text)
+    ops = _ops(p)
+    name = list(ops)[i]
+    r = ops[name]()
+    _write(r, v)
+    again = ops[name]()
+    if _holds(again, v):
+        return fail(f"the value written into the result of {name} comes back from the next call")
+    for other in ("build_decay_chains(first)", "details(last)", "dict_definitions", "list_decay_mother_names"):
+        if _holds(ops[other](), v):
+            return fail(f"the value written into the result of {name} comes back from {other}")
+    with NoTracing():
+        got = snapshot(p)
+    if got != fresh:
+        return fail(f"after {name} with its result overwritten the answers differ from a fresh instance")
+    return True
